@@ -28,6 +28,19 @@ type c18Silent struct {
 	port     int
 	mu       sync.Mutex
 	sessions int
+	conns    []*gossh.ServerConn
+}
+
+// drop closes the established connections of the server (logged first: the client can only notice afterwards)
+func (s *c18Silent) drop() {
+	s.mu.Lock()
+	conns := s.conns
+	s.conns = nil
+	s.mu.Unlock()
+	c18Emit("drop", s.id)
+	for _, c := range conns {
+		c.Close()
+	}
 }
 
 // one event log for all servers of the harness, ordered by one lock (spec/ThrottleTrace.tla)
@@ -82,6 +95,9 @@ func c18SilentServer(t *testing.T, signer gossh.Signer, id int, failing bool) *c
 					return
 				}
 				defer sc.Close()
+				s.mu.Lock()
+				s.conns = append(s.conns, sc)
+				s.mu.Unlock()
 				go gossh.DiscardRequests(reqs)
 				for nc := range chans {
 					if nc.ChannelType() != "session" {
@@ -164,8 +180,34 @@ func TestC18Throttle(t *testing.T) {
 		time.Sleep(50 * time.Millisecond)
 	}
 	got := contacted()
+	dropped, redialled := 0, 0
 	if got == n {
 		time.Sleep(2500 * time.Millisecond) // one more round of dials to the failing entries (retry mode)
+		// three servers end their sessions: the retrying client connects to each of them again (and to nobody else twice)
+		victims := []*c18Silent{servers[0], servers[n/2], servers[n-1]}
+		before := map[*c18Silent]int{}
+		for _, v := range victims {
+			v.mu.Lock()
+			before[v] = v.sessions
+			v.mu.Unlock()
+			v.drop()
+			dropped++
+		}
+		again := func() int {
+			k := 0
+			for _, v := range victims {
+				v.mu.Lock()
+				if v.sessions > before[v] {
+					k++
+				}
+				v.mu.Unlock()
+			}
+			return k
+		}
+		for dl := time.Now().Add(10 * time.Second); again() < dropped && time.Now().Before(dl); {
+			time.Sleep(50 * time.Millisecond)
+		}
+		redialled = again()
 	}
 	c18LogMu.Lock()
 	c18LogOff = true
@@ -177,5 +219,5 @@ func TestC18Throttle(t *testing.T) {
 	case <-time.After(8 * time.Second):
 	}
 	vWriteJSON(t, "VERIF_OUT", map[string]interface{}{"servers": n, "failing": nfail, "contacted": got,
-		"capacity": runtime.NumCPU(), "trace": trace})
+		"capacity": runtime.NumCPU(), "dropped": dropped, "redialled": redialled, "trace": trace})
 }
